@@ -49,5 +49,5 @@ Rec == [c |-> "RD", wd |-> <<d>>, rd |-> <<out.d>>, F |-> <<FSeq(F)>>,
         sf0 |-> 0, sf1 |-> IF out.sec THEN 1 ELSE 0, df0 |-> 0, df1 |-> IF out.ded THEN 1 ELSE 0]
 Sound == RdJudge(Rec) = {}
 OnlyParityUncounted == Uncounted(Rec) \subseteq {<<0, 0>>}          \* a single flip goes uncounted only on stored bit 0
-CodeBitsOk == CodeBits(K) = N + 1
+ASSUME CodeBitsOk == CodeBits(K) = N + 1
 ====
